@@ -43,6 +43,12 @@ type Violation struct {
 	MapOrders int // map-order decision points on the violating path
 }
 
+// lockState is the state of one tracked sync.Mutex or sync.RWMutex.
+type lockState struct {
+	writer  bool
+	readers int
+}
+
 type pathState struct {
 	w            *Worker
 	forced       []Decision
@@ -66,6 +72,7 @@ type pathState struct {
 	goStmts      int
 	mapOrders    int
 	mapOrdersOff bool
+	locks        map[*value]*lockState // tracked mutexes (harness flag "locks")
 	lastModel    map[string]*Term
 	alpha        map[string]string // input name -> character class it is restricted to
 	notes        map[string]bool   // failed Note labels
